@@ -7,6 +7,8 @@ import json, os, re, subprocess, sys, time
 
 ROOT = os.path.dirname(os.path.dirname(os.path.abspath(__file__)))
 TARGETS = {
+    "C04-4A": ["C04", "C17"], "C04-4B": ["C04", "C07"], "C07-4A": ["C07", "C05"], "C07-4B": ["C07", "C06"], "C08-4A": ["C08", "C07"], "C08-4B": ["C08", "C06"],
+    "C13-4A": ["C13"], "C13-4B": ["C13"], "C20-4A": ["C20"], "C20-4B": ["C20"], "C06-4A": ["C06"], "C06-4B": ["C06"], "C14-4A": ["C14"], "C14-4B": ["C14"],
     "C15-4A": ["C15", "C16"], "C15-4B": ["C15"], "C01-4A": ["C01", "C16", "C15"], "C01-4B": ["C01", "C02", "C17"], "C12-4A": ["C12"], "C12-4B": ["C12", "C15"],
     "C05-4A": ["C05", "C07"], "C05-4B": ["C05", "C07"], "C18-4A": ["C18"], "C18-4B": ["C18", "C03"], "C19-4A": ["C19"], "C19-4B": ["C19", "C17"],
     "C17-4A": ["C17", "C02"], "C17-4B": ["C17", "C02"], "C16-4A": ["C16"], "C16-4B": ["C16", "C18"], "C10-4A": ["C10", "C09"], "C10-4B": ["C10"],
